@@ -50,6 +50,54 @@ def run(tier, seed):
             src, err, kind = check(env, seq)
             if err and len(viol) < 5000:
                 viol.append({"id": kind.split(":")[0], "witness": kind + (":" + seq[0] if kind == "total" else ""), "source": src, "got": err, "names": list(seq)})
+    # nesting: every inner tag, one block deeper than the block that admits it
+    blocks = {"if": ("if", "endif"), "for": ("for", "endfor"), "case": ("case", "endcase"), "unless": ("unless", "endunless"), "capture": ("capture", "endcapture")}
+    inner = {"for": ["break", "else"], "if": ["else", "elsif"], "unless": ["else", "elsif"], "case": ["when", "else"]}
+    for outer, its in inner.items():
+        for it in its:
+            for mid in blocks:
+                for deep in (1, 2):
+                    seq = [outer] + [mid] * deep + [it] + [blocks[mid][1]] * deep + [blocks[outer][1]]
+                    cases += 1
+                    src, err, kind = check(env, seq)
+                    if err:
+                        viol.append({"id": kind.split(":")[0], "witness": kind + ":nested", "source": src, "got": err, "names": list(seq)})
+    # the extra environment: macro/call, block, with, translate/plural
+    xenv = Environment(extra=True)
+    XP = dict(PIECES)
+    XP.update({"macro": "{% macro m a %}", "endmacro": "{% endmacro %}", "call": "{% call m 1 %}", "block": "{% block b %}", "endblock": "{% endblock %}", "with": "{% with a: 1 %}", "endwith": "{% endwith %}",
+               "translate": "{% translate %}", "plural": "{% plural %}", "endtranslate": "{% endtranslate %}"})
+    xnames = ["macro", "endmacro", "call", "block", "endblock", "with", "endwith", "translate", "plural", "endtranslate", "if", "else", "endif", "nosuch", "text"]
+    saved = dict(PIECES)
+    PIECES.update(XP)
+    try:
+        for k in range(1, (4 if tier == "thorough" else 3) + 1):
+            for seq in itertools.product(xnames, repeat=k):
+                cases += 1
+                src, err, kind = check(xenv, seq)
+                if err and len(viol) < 5000:
+                    viol.append({"id": kind.split(":")[0], "witness": kind + ":extra" + (":" + seq[0] if kind == "total" else ""), "source": src, "got": err, "names": list(seq)})
+        for blk in ("macro", "block", "with", "translate"):
+            cases += 1
+            res = xenv.analyze_tags_from_string(PIECES[blk] + "x")
+            if blk not in res.unclosed_tags:
+                viol.append({"id": "missed-unclosed", "witness": blk + ":extra", "source": PIECES[blk] + "x", "got": "unclosed block not reported", "names": [blk]})
+    finally:
+        PIECES.clear()
+        PIECES.update(saved)
+    # loader entry points, sync and async, with a caller-supplied inner_tags map
+    import asyncio
+    from liquid import DictLoader
+    lenv = Environment(extra=True, loader=DictLoader({"t": "{% translate %}a{% plural %}b{% endtranslate %}{% if x %}{% else %}{% endif %}", "bad": "{% if x %}{% plural %}"}))
+    custom = {"if": ["else", "elsif"], "translate": ["plural"]}
+    for nm in ("t", "bad"):
+        cases += 1
+        a = lenv.analyze_tags(nm, inner_tags=custom)
+        b = asyncio.run(lenv.analyze_tags_async(nm, inner_tags=custom))
+        c0 = lenv.analyze_tags_from_string(lenv.loader.get_source(lenv, nm).text, name=nm, inner_tags=custom)
+        pic = lambda r: (dict(r.unknown_tags), dict(r.unexpected_tags), dict(r.unclosed_tags), r.template_name)  # noqa: E731
+        if not (pic(a) == pic(b) == pic(c0)):
+            viol.append({"id": "entry-points-disagree", "witness": f"entry:{nm}", "source": nm, "got": f"sync={pic(a)} async={pic(b)} from_string={pic(c0)}", "names": [nm]})
     # unclosed blocks are reported
     for blk in ("if", "for", "case", "unless", "capture"):
         cases += 1
